@@ -352,7 +352,7 @@ impl<'x> GenComp<'x> {
                         // nothing to lift: a core type section instead (function types, explicit
                         // recursion groups of 1-3 members incl. struct / array, a module type);
                         // the shape is a function of the position, not a tape read
-                        let k = (l.types.len() * 5 + l.core_modules.len() * 3 + l.core_funcs.len() + depth) % 5;
+                        let k = (l.types.len() * 5 + l.core_modules.len() * 3 + l.core_funcs.len() + depth) % 7;
                         let ft = |p: &[we::ValType], r: &[we::ValType]| we::SubType {
                             is_final: true,
                             supertype_idx: None,
@@ -366,6 +366,32 @@ impl<'x> GenComp<'x> {
                                 shared: false,
                             },
                         };
+                        if k >= 5 {
+                            // an instance type / a component type whose declarations contain core
+                            // types (a recursion group, a plain function type), a function type and
+                            // an export resp. import that uses them
+                            let mut ts = we::ComponentTypeSection::new();
+                            if k == 5 {
+                                let mut it = we::InstanceType::new();
+                                it.core_type().core().rec(vec![ft(&[], &[we::ValType::I32]), st.clone()]);
+                                it.core_type().core().subtype(&ft(&[we::ValType::I64], &[]));
+                                it.ty().function().params([("a", CV::Primitive(PV::U8))]).result(None);
+                                it.export("f", we::ComponentTypeRef::Func(0));
+                                ts.instance(&it);
+                                self.classes.push("type:instance_with_core_types");
+                            } else {
+                                let mut ct = we::ComponentType::new();
+                                ct.core_type().core().rec(vec![st.clone()]);
+                                ct.core_type().core().subtype(&ft(&[], &[]));
+                                ct.ty().defined_type().primitive(PV::Bool);
+                                ct.import("x", we::ComponentTypeRef::Type(we::TypeBounds::Eq(0)));
+                                ts.component(&ct);
+                                self.classes.push("type:component_with_core_types");
+                            }
+                            c.section(&ts);
+                            l.types.push(Ty::Other);
+                            continue;
+                        }
                         let mut s = we::CoreTypeSection::new();
                         match k {
                             0 => {
